@@ -362,10 +362,15 @@ func c10Program(r *fw.R, d c10Desc) {
 	for i, op := range d.Ops {
 		var ctx context.Context
 		var cancel context.CancelFunc
+		// (an operation that is still not back after 45 s although the peer co-operates is a later call that hangs: its
+		// context is then ended so that the case finishes, and the hang is what gets reported)
+		opBase, opHang := context.WithCancel(base)
+		var hung atomic.Bool
+		hangTimer := time.AfterFunc(45*time.Second, func() { hung.Store(true); opHang() })
 		if op.Cancel == "deadline-after-return" {
-			ctx, cancel = context.WithTimeout(base, 400*time.Millisecond)
+			ctx, cancel = context.WithTimeout(opBase, 400*time.Millisecond)
 		} else {
-			ctx, cancel = context.WithCancel(base)
+			ctx, cancel = context.WithCancel(opBase)
 		}
 		payload := genPayload(rng, op.Size, rng.Intn(5), nil)
 		var opErr error
@@ -473,6 +478,17 @@ func c10Program(r *fw.R, d c10Desc) {
 			rcancel() // cancelled after its Read returned successfully: must be harmless too
 			r.Count("ops_with_context_cancelled_after_return", 1)
 			r.Key("program/%s/%s/ping/%s", d.Role, paramsKey(d.Params), op.Cancel)
+		}
+		hangTimer.Stop()
+		if hung.Load() {
+			if over := time.Duration(canaryMax.Load()); over > 5*time.Second {
+				r.Inconclusivef("%s: not back after 45 s, canary overslept %v", what(i, op), over)
+			} else {
+				r.Violate("C10/later-call-hangs-after-earlier-cancellations/"+op.Kind, fmt.Sprintf("%s: had not returned after 45 s although the peer had supplied everything it needs (every context cancelled so far belonged to a call that had already returned successfully); it ended with %v once the harness ended its context", what(i, op), opErr), "")
+			}
+			cancel()
+			opHang()
+			return
 		}
 		if opErr != nil && op.Cancel == "deadline-after-return" && ctx.Err() != nil {
 			// the operation itself outlasted its 400 ms deadline (slow machine): closing the connection is then
